@@ -282,6 +282,60 @@ func genC09(ctx *Ctx) []Case {
 			}
 		}
 	}
+	// ---- a SECOND fetch after the remote moved refs: the local side already holds the refs (tags and
+	// remote-tracking branches) from an earlier fetch; the remote then moved each of them to a commit that is
+	// reachable from NO other advertised ref (a hot-fix commit on a side line), or to a descendant, or not at all.
+	// Crossed with '+' on the heads refspec, '+' on the tags refspec and the global force flag.  Whatever is
+	// accepted or rejected, every ref that moved must have its whole history locally.
+	{
+		//   0 <- 1 <- 2 <- 3          main line          7 (new root)
+		//        1 <- 4 <- 5          side line          2 <- 6 side commit on top of main
+		gm := &c09Graph{Par: [][]int{{}, {0}, {1}, {2}, {1}, {4}, {2}, {}}, Tab: []int{1, 2, 3, 4, 0, 1, 2, 3}, Ts: []int{0, 1, 2, 3, 4, 5, 6, 7}}
+		type mv struct {
+			name    string
+			old, nw int
+		}
+		moves := [][]mv{
+			// the tag moved to a side commit nobody else points at; the branch fast-forwards
+			{{"tags/v1", 1, 5}, {"heads/main", 2, 3}},
+			// tag and branch both moved to private side commits (branch: non-fast-forward)
+			{{"tags/v1", 2, 6}, {"heads/main", 3, 5}},
+			// tag moved to an unrelated root, branch unchanged
+			{{"tags/v1", 2, 7}, {"heads/main", 2, 2}},
+			// two tags: one moved to a private commit, one to a commit the branch also brings
+			{{"tags/v1", 1, 5}, {"tags/v2", 1, 3}, {"heads/main", 2, 3}},
+			// tag moved backwards to an ancestor that is already there; branch moved to a private side commit
+			{{"tags/v1", 3, 1}, {"heads/main", 3, 6}},
+		}
+		for _, ms := range moves {
+			for _, hf := range []bool{false, true} {
+				for _, tf := range []bool{false, true} {
+					for _, gforce := range []bool{false, true} {
+						for _, depth := range []int{0, 1} {
+							if depth == 1 && (hf || !ctx.Thorough()) {
+								continue
+							}
+							c := &c09Case{G: gm, Kind: 0, GForce: gforce, Depth: depth,
+								Specs: []c10Spec{{hf, true, "heads/", "remotes/origin/"}, {tf, true, "tags/", "tags/"}}}
+							var lrefs, rrefs [][2]interface{}
+							for _, m := range ms {
+								rrefs = append(rrefs, [2]interface{}{m.name, m.nw})
+								ln := m.name
+								if strings.HasPrefix(ln, "heads/") {
+									ln = "remotes/origin/" + ln[6:]
+								}
+								lrefs = append(lrefs, [2]interface{}{ln, m.old})
+							}
+							c.L = c09FullSide(gm, lrefs)
+							c.R = c09FullSide(gm, rrefs)
+							add("refetch-moved-refs", c)
+							ctx.Count(fmt.Sprintf("refetch_hf%v_tf%v_g%v", hf, tf, gforce))
+						}
+					}
+				}
+			}
+		}
+	}
 	// ---- persistent faults: EVERY packfile answer of upload-pack is cut inside its last object (3) or lost (4), on
 	// every attempt: the fetch cannot succeed and must give up with an error (bounded by the server's watchdog)
 	{
